@@ -1,11 +1,30 @@
 """C06 - after a crash the database holds a prefix of what was done, minus a bounded tail."""
+S = "aw_datastore.storages.sqlite.SqliteStorage."
 PROP = dict(
     id="C06",
     level="other",
-    contract_modules=["contracts.models"],
-    spec_modules=["contracts.models"],
-    functions=[],
+    contract_modules=["contracts.models", "contracts.sqlite"],
+    spec_modules=["contracts.sqlite"],
+    functions=[dict(fn=S + "commit", rt_skip=True),
+               dict(fn=S + "conditional_commit", rt_skip=True),
+               dict(fn=S + "delete", rt_skip=True),
+               dict(fn=S + "replace", rt_skip=True),
+               dict(fn=S + "replace_last", rt_skip=True),
+               dict(fn=S + "insert_one", rt_skip=True),
+               dict(fn=S + "insert_many", rt_skip=True),
+               dict(fn=S + "create_bucket", rt_skip=True),
+               dict(fn=S + "delete_bucket", rt_skip=True)],
+    timeout_s=20,
     extra=[lambda run: run.storage_mode("c06", what="what a second connection sees after every operation (= what survives a crash) on sqlite (lazy commit) and peewee", backends=["sqlite", "peewee"]), lambda run: run.storage_mode("c06del", runs=1, what="a run of 150 deletions on the lazily committing store", backends=["sqlite"])],
-    technique="run-time check of the real back ends (bounded); contract-based proof of the sqlite methods is layered on top where built",
-    explanation="bounded: after every operation of random histories the database file is read through a second connection (what a process started after a crash would see): it must equal the writer's own state after some earlier operation (a prefix in issue order, no operation split), bucket create/update/delete must be visible on return, at most about 50 buffered event writes (deletions included) may be missing on the lazily committing sqlite store, and every completed operation must be visible on peewee. Process death, WAL recovery and fsync themselves are trusted (T-WAL, T-PYSQLITE).",
+    technique="run-time check of the real back ends (bounded); with the sqlite methods proved against contracts over the table state (SQL text parsed from the source)",
+    explanation="deductive (sqlite): commit discipline as the invariant lazy_inv (pending statements <= num_uncommitted_statements <= 50 on the lazy store, 0 pending on the auto-committing one), established by every write method and by conditional_commit; bucket create/delete end with 0 pending statements, and delete_bucket commits exactly once, after its last statement (not split). What a crash preserves given the committed prefix is SQLite's (T-WAL). " 
+                "bounded: after every operation of random histories the database file is read through a second connection (what a process started after a crash would see): it must equal the writer's own state after some earlier operation (a prefix in issue order, no operation split), bucket create/update/delete must be visible on return, at most about 50 buffered event writes (deletions included) may be missing on the lazily committing sqlite store, and every completed operation must be visible on peewee. Process death, WAL recovery and fsync themselves are trusted (T-WAL, T-PYSQLITE).",
 )
+
+F = "/repo/aw_datastore/storages/sqlite.py"
+MUTANTS = [
+    (F, '            if self.num_uncommitted_statements > 50:\n                self.commit()', '            if self.num_uncommitted_statements > 500:\n                self.commit()', True),   # count threshold 500
+    (F, '        cursor = self.conn.execute("DELETE FROM buckets WHERE id = ?", [bucket_id])\n        self.commit()', '        self.commit()\n        cursor = self.conn.execute("DELETE FROM buckets WHERE id = ?", [bucket_id])\n        self.commit()', True),   # delete_bucket split by a commit
+    (F, '        cursor = self.conn.execute(query, [event_id, bucket_id])\n        # Deletes are buffered writes as well, they need to be counted and eventually committed\n        self.conditional_commit(1)', '        cursor = self.conn.execute(query, [event_id, bucket_id])\n        # Deletes are buffered writes as well, they need to be counted and eventually committed\n        self.conditional_commit(0)', True),   # deletes not counted
+    (F, '        self.conn.executemany(query, event_rows)\n        self.conditional_commit(len(event_rows))', '        self.conn.executemany(query, event_rows)\n        self.conditional_commit(1)', True),   # bulk insert counted as one
+]
